@@ -494,3 +494,59 @@ def serde(tier, seed, params):
             steps = "".join(rng.choice("eeeeeeexn") for _ in range(k)) + rng.choice(["n", "x", ""])
             out.append("op=de_script n=%d hint0=%s steps=%s hintend=%s" % (n, rng.choice(["none", str(n)]), steps, rng.choice(["none", "0", "1"])))
     return out
+
+
+CMP_ALPHA = {
+    "u8": ["0", "1", "255"], "i32": ["-1", "0", "1"], "f64": ["0", "4", "nan"], "str": ["-", "61", "6162"],
+    "nesti": ["0:0", "0:1", "1:0"], "nestf": ["0:0", "0:nan", "nan:0"],
+}
+CMP_WIDE = {
+    "u8": ["0", "1", "2", "127", "128", "255"], "i32": ["-2147483648", "-1", "0", "1", "7", "2147483647"],
+    "f64": ["0", "nz", "1", "-3", "4", "10", "inf", "ninf", "nan"], "str": ["-", "61", "6162", "62", "225c0a27", "41"],
+    "nesti": ["0:0", "0:1", "1:0", "-1:5", "5:-1"], "nestf": ["0:0", "0:nan", "nan:0", "4:inf", "nz:0", "1:2"],
+}
+CMP_HASH_KINDS = ["u8", "i32", "str", "nesti"]
+
+
+def cmp_(tier, seed, params):
+    import itertools
+    import rustfmt
+    rng = random.Random(seed)
+    out = []
+    arr = lambda els: ",".join(els) if els else "_"
+    for kind, alpha in CMP_ALPHA.items():
+        for n in range(0, 5):
+            al = alpha if (n <= 3 or tier == "thorough") else alpha[1:]
+            alls = [arr(list(c)) for c in itertools.product(al, repeat=n)]
+            for a in alls:
+                out.append("op=cmp kind=%s n=%d a=%s b=%s same=1" % (kind, n, a, a))
+                for b in alls:
+                    out.append("op=cmp kind=%s n=%d a=%s b=%s same=0" % (kind, n, a, b))
+                if kind in CMP_HASH_KINDS:
+                    out.append("op=hash kind=%s n=%d a=%s" % (kind, n, a))
+        wide = CMP_WIDE[kind]
+        for n in (2, 3, 4, 8, 16, 33, 100):
+            for _ in range(12 if tier == "quick" else 120):
+                a = [rng.choice(wide) for _ in range(n)]
+                b = list(a)
+                for _ in range(rng.choice([0, 1, 1, 2])):
+                    b[rng.randrange(n)] = rng.choice(wide)
+                out.append("op=cmp kind=%s n=%d a=%s b=%s same=0" % (kind, n, arr(a), arr(b)))
+                out.append("op=cmp kind=%s n=%d a=%s b=%s same=1" % (kind, n, arr(a), arr(a)))
+                if kind in CMP_HASH_KINDS:
+                    out.append("op=hash kind=%s n=%d a=%s" % (kind, n, arr(a)))
+        # Debug: every flag combination x a few arrays per length
+        for n in (0, 1, 2, 3, 8):
+            arrays = [[rng.choice(wide) for _ in range(n)] for _ in range(1 if n == 0 else (3 if tier == "quick" else 12))]
+            for a in arrays:
+                for fl in rustfmt.FLAGS:
+                    out.append("op=dbg kind=%s n=%d flags=%s a=%s e=%s e0=%s" % (
+                        kind, n, fl, arr(a), rustfmt.elem_strings(kind, arr(a), fl), rustfmt.elem_strings(kind, arr(a), "d")))
+        if kind in CMP_HASH_KINDS:
+            for n in (0, 1, 2, 3, 8):
+                for _ in range(6 if tier == "quick" else 40):
+                    keys = [[rng.choice(wide[:4]) for _ in range(n)] for _ in range(rng.randint(1, 5))]
+                    qs = keys + [[rng.choice(wide) for _ in range(n)]]
+                    for q in qs:
+                        out.append("op=map kind=%s n=%d keys=%s q=%s" % (kind, n, "|".join(arr(k) for k in keys), arr(q)))
+    return out
